@@ -216,10 +216,10 @@ def maps_stream(R, n=None):
                 wins.append((lo, c)); lo = c
         regs = []
         for (a, b) in wins:
-            cnt = min(b - a, rng.choice([1, 1, 2, 7, 8, 9, 20]))
+            cnt = min(b - a, rng.choice([1, 1, 2, 7, 8, 9, 20, 0, 0]))      # 0: a file that stores no page of its window
             rp = rng.choice([a, b - cnt, min(b - cnt, a + rng.randint(0, 30)), max(a, b - cnt - rng.randint(0, 30))])
             regs.append((a, b, rp, cnt))
-        iv = sorted((rp, rp + cnt) for (_, _, rp, cnt) in regs)
+        iv = sorted((rp, rp + cnt) for (_, _, rp, cnt) in regs if cnt)
         pts = [x for (u, v) in iv for x in (u - 1, u, v - 1, v, v + 1)] + [0, (1 << 64) - 1]
         q = max(0, min(rng.choice(pts), (1 << 64) - 1))
         first = max(0, min(rng.choice(pts) - rng.choice([0, 1, 7, 8, 9]), (1 << 64) - 2))
